@@ -19,6 +19,10 @@ Definition merge_min (a b : value) : value :=
 Definition merge_affine (a b : value) : value :=
   let w := width_bits b in mkw w ((raw a * 3 + raw b) mod 2 ^ w).
 
+(* float addition on integral values (MergeFloat32 / MergeFloat64 with the default merge) *)
+Definition merge_fadd (a b : value) : value :=
+  match fdec a, fdec b with Some x, Some y => fenc_like b (x + y)%Z | _, _ => b end.
+
 Definition col_num (w : N) (m : value -> value -> value) : column := mkcol true m (mkw w 0) id ∅.
 Definition col_str (m : value -> value -> value) : column := mkcol true m (VB []) id ∅.
 Definition col_plain : column := mkcol false merge_replace V0 id ∅.      (* enum, key, bool *)
